@@ -25,7 +25,8 @@ type c08Case struct {
 	// extend: how the start box is made: 0 NewBounds(l); 1 NewBounds(l).SetCoords(min,max);
 	// 2 NewBounds(l).Set(min..., max...) - both with an interval [-500-i, 500+i] in dimension i
 	Init   int         `json:"init,omitempty"`
-	Alpha  string      `json:"alpha,omitempty"` // extend: "" = the layout-mix alphabet, "inf" = one-point geometries with infinite ordinates
+	Beyond int         `json:"set_beyond_layout,omitempty"` // overlaps: see c08Exec
+	Alpha  string      `json:"alpha,omitempty"`             // extend: "" = the layout-mix alphabet, "inf" = one-point geometries with infinite ordinates
 	BoxA   []ref.F     `json:"box_a,omitempty"`
 	BoxB   []ref.F     `json:"box_b,omitempty"`
 	Layout geom.Layout `json:"layout,omitempty"`
@@ -435,14 +436,27 @@ func c08Exec(c *engine.Ctx, cs c08Case, onState func(multiset, key string)) {
 	case "overlaps":
 		l := cs.Layout
 		n := l.Stride()
-		mk := func(v []ref.F) *geom.Bounds {
+		mk := func(v []ref.F, decl geom.Layout) *geom.Bounds {
 			args := make([]float64, len(v))
 			for i, x := range v {
 				args[i] = float64(x)
 			}
-			return geom.NewBounds(l).Set(args...)
+			return geom.NewBounds(decl).Set(args...)
 		}
-		a, b := mk(cs.BoxA), mk(cs.BoxB)
+		// Beyond: a box was created for a narrower layout (XY, or none) and then Set with all the
+		// dimensions of the query layout - Set stores every dimension it is given
+		la, lb := l, l
+		switch cs.Beyond {
+		case 1:
+			la = geom.XY
+		case 2:
+			lb = geom.XY
+		case 3:
+			la, lb = geom.XY, geom.XY
+		case 4:
+			la, lb = geom.NoLayout, geom.NoLayout
+		}
+		a, b := mk(cs.BoxA, la), mk(cs.BoxB, lb)
 		want := true
 		for i := 0; i < n; i++ {
 			lo := math.Max(float64(cs.BoxA[i]), float64(cs.BoxB[i]))
@@ -737,6 +751,8 @@ func c08Run(c *engine.Ctx) {
 		for _, b := range boxes3 {
 			c08Exec(c, c08Case{Mode: "overlaps", Layout: geom.XYZ, BoxA: boxes3[i], BoxB: b}, nil)
 			c08Exec(c, c08Case{Mode: "overlaps", Layout: geom.XYM, BoxA: boxes3[i], BoxB: b}, nil)
+			c08Exec(c, c08Case{Mode: "overlaps", Layout: geom.XYZ, BoxA: boxes3[i], BoxB: b, Beyond: 1 + (i+len(b))%4}, nil)
+			c08Exec(c, c08Case{Mode: "overlaps", Layout: geom.XYZ, BoxA: boxes3[i], BoxB: b, Beyond: 1 + (i+len(b)+int(b[0])+int(b[2]))%4}, nil)
 		}
 	})
 	// (c2) queries in a narrower layout than the boxes: XY queries on XY/XYZ/XYM/XYZM boxes whose
